@@ -167,6 +167,9 @@ def near_miss_sequences(ri, rn, ctx):
         yield w[:i] + [v] + w[i + 1:]
 
 
+KEEP_ALIVE = []
+
+
 def run_one(ri, rn, kids):
     impl.reset()
     elem = ri.elem_for(rn)
@@ -177,6 +180,11 @@ def run_one(ri, rn, kids):
         n.add_attribute(k, v)
     for kn in kids:
         c = Node(kn); n.children.append(c); c.parent = n
+    if (len(kids) + len(rn)) % 5 == 0:
+        # the same node, sitting somewhere below additionalMetadata/metadata: single-node validation looks at the node it is given
+        am = Node("additionalMetadata"); md = Node("metadata"); mid = Node("zzForeignWrapper")
+        am.children.append(md); md.parent = am; md.children.append(mid); mid.parent = md; mid.children.append(n); n.parent = mid
+        KEEP_ALIVE.append(am)
     if elem:
         f, args = validate.node, (n,)
     else:
